@@ -199,6 +199,13 @@ fn main() {
                     let (l, rr) = *r.pick(&good);
                     exec(&mut m, &Op::Force(None, Call::S(3, l, rr)));
                 }
+                // open shells: some sides lose their 2-sew (boundary darts that are 2-free and 3-free)
+                if r.chance(1, 3) {
+                    for _ in 0..1 + r.below(4) {
+                        let d = 1 + r.below(u64::from(cx.n_darts())) as u32;
+                        exec(&mut m, &Op::Force(None, Call::X(2, d)));
+                    }
+                }
                 m
             };
             let mut pre = String::new();
